@@ -160,7 +160,9 @@ harnesses! {
     c11_rt_base [stubbyron 4] => c11::rt_base;
     c11_rt_enterprise [stubbyron 4] => c11::rt_enterprise;
     c11_rt_reward [stubbyron 4] => c11::rt_reward;
-    c11_pointer_roundtrip [stubbyron 12] => c11::pointer_roundtrip;
+    c11_pointer_rt_slot [stubbyron 12] => c11::pointer_rt_slot;
+    c11_pointer_rt_tx [stubbyron 12] => c11::pointer_rt_tx;
+    c11_pointer_rt_cert [stubbyron 12] => c11::pointer_rt_cert;
     c11_strict_parse_short [stubbyron 8] => c11::strict_parse_short;
     c11_strict_parse_base [stubbyron 4] => c11::strict_parse_base;
     c11_embedded_verbatim_short [stubbyron 36] => c11::embedded_verbatim_short;
